@@ -1,5 +1,177 @@
-"""Kink variants (filled in later)."""
+"""Kink variants for C01 / C02: the non-smooth points that the rules handle explicitly.
+
+At such a point the derivative returned by autograd must be finite and a valid generalised gradient: for every direction v
+and every output component i, (J_an v)_i lies between the two one-sided directional derivatives of raw NumPy.
+"""
+import json
+from functools import partial
+
+import numpy as onp
+
+from .. import oracle, values
+from ..case import Outcome, describe_exc, fail, from_autograd, ok, raised
+from ..engine import Test
+from ..templates.core import namespaces
+
+KINDS = ["reduce_tie", "binary_tie", "abs_zero", "clip_bound", "pow_zero"]
+
+
+def build(c):
+    """Draw a kink configuration: returns (name, f(ns, x), x0 (array), onesided_only, description)."""
+    kind = KINDS[c.int(0, len(KINDS) - 1)]
+    vseed = c.seed()
+    if kind == "reduce_tie":
+        name = c.choice(["max", "min", "amax", "amin"])
+        shape = c.shape(1, 3, max_side=4)
+        x0 = values.generic(vseed, [shape], -2.0, 2.0)[0][0].copy()
+        nd = len(shape)
+        k = c.int(0, 2)
+        axis = None if k == 0 else (c.axis(nd) if k == 1 else tuple(c.sample(range(nd), c.int(1, nd))))
+        keepdims = c.bool()
+        mult = c.int(2, 4)
+        # tie: copy the extreme value of the whole array to `mult - 1` further positions (ties along whatever axis is reduced)
+        flat = x0.reshape(-1)
+        ext = flat.max() if name in ("max", "amax") else flat.min()
+        for _ in range(mult - 1):
+            flat[c.int(0, flat.size - 1)] = ext
+        kw = {"keepdims": keepdims}
+        if axis is not None:
+            kw["axis"] = axis
+        f = lambda ns, x: getattr(ns, name)(x, **kw)
+        return "kink:" + name, f, x0, False, [kind, name, list(shape), kw_repr(kw), mult]
+    if kind == "binary_tie":
+        name = c.choice(["maximum", "minimum", "fmax", "fmin"])
+        res = c.shape(0, 2, max_side=3)
+        sa, sb = c.bshape(res), c.bshape(res)
+        (a0, b0), _ = values.generic(vseed, [sa, sb], -2.0, 2.0)
+        a0, b0 = a0.copy(), b0.copy()
+        argnum = c.int(0, 1)
+        # make some broadcast entries tie: set entries of the differentiated argument equal to the partner's broadcast value
+        A, B = onp.broadcast_arrays(a0, b0)
+        tgt, oth = (a0, B) if argnum == 0 else (b0, A)
+        if tgt.shape == onp.broadcast_shapes(sa, sb):
+            mask_bits = [c.bool() for _ in range(tgt.size)]
+            m = onp.array(mask_bits, dtype=bool).reshape(tgt.shape)
+            if not m.any() and tgt.size:
+                m.reshape(-1)[0] = True
+            tgt[m] = oth[m]
+        else:
+            # lower-rank argument: tie its first entry with one of the partner entries it is broadcast against
+            tgt.reshape(-1)[0] = onp.broadcast_to(oth, onp.broadcast_shapes(sa, sb)).reshape(-1)[0]
+        if argnum == 0:
+            f = lambda ns, x: getattr(ns, name)(x, b0)
+            x0 = a0
+        else:
+            f = lambda ns, x: getattr(ns, name)(a0, x)
+            x0 = b0
+        return "kink:" + name, f, x0, False, [kind, name, list(sa), list(sb), argnum]
+    if kind == "abs_zero":
+        name = c.choice(["abs", "absolute", "fabs", "op_abs"])
+        shape = c.shape(0, 2, max_side=3)
+        x0 = values.generic(vseed, [shape], -2.0, 2.0)[0][0].copy()
+        flat = x0.reshape(-1)
+        for _ in range(c.int(1, 2)):
+            flat[c.int(0, flat.size - 1)] = 0.0
+        f = (lambda ns, x: abs(x)) if name == "op_abs" else (lambda ns, x: getattr(ns, name)(x))
+        return "kink:" + name, f, x0, False, [kind, name, list(shape)]
+    if kind == "clip_bound":
+        shape = c.shape(0, 2, max_side=3)
+        lo, hi = c.choice([(-0.7, 0.9), (-1.1, 0.2)])
+        x0 = values.generic(vseed, [shape], -2.0, 2.0, avoid=(lo, hi))[0][0].copy()
+        flat = x0.reshape(-1)
+        for _ in range(c.int(1, 2)):
+            flat[c.int(0, flat.size - 1)] = c.choice([lo, hi])
+        f = lambda ns, x: ns.clip(x, lo, hi)
+        return "kink:clip", f, x0, False, [kind, list(shape), lo, hi]
+    # pow_zero: x ** y at x = 0
+    shape = c.shape(0, 2, max_side=3)
+    y = c.choice([0, 1, 2, 3, 1.5, 2.5, 2.0, 3.0])
+    x0 = values.generic(vseed, [shape], 0.4, 2.0)[0][0].copy()
+    flat = x0.reshape(-1)
+    for _ in range(c.int(1, 2)):
+        flat[c.int(0, flat.size - 1)] = 0.0
+    form = c.int(0, 1)
+    f = (lambda ns, x: ns.power(x, y)) if form == 0 else (lambda ns, x: x ** y)
+    onesided = isinstance(y, float) and y != int(y)
+    return "kink:power", f, x0, onesided, [kind, list(shape), y, form]
+
+
+def kw_repr(kw):
+    return {k: (list(v) if isinstance(v, tuple) else v) for k, v in kw.items()}
+
+
+def body(mode, c):
+    import autograd
+
+    NP, AG = namespaces()
+    name, f, x0, onesided, desc = build(c)
+    vseed = c.choice([0, 1, 2, 3, 4, 5, 6, 7])
+    sample = {"kink": desc, "mode": mode, "x": onp.asarray(x0).tolist()}
+    x0 = onp.array(x0)
+    x0.flags.writeable = False
+    f_np = lambda x: f(NP, x)
+    bucket = lambda k: f"{name}|{mode}|{k}"
+    try:
+        y0 = onp.asarray(f_np(x0), dtype=float)
+    except Exception as e:
+        return Outcome("numpy_rejects", detail=str(e)[:100], sample=sample)
+    if not onp.all(onp.isfinite(y0)) or y0.size == 0:
+        return Outcome("numpy_rejects", detail="non-finite primal", sample=sample)
+    # analytic Jacobian
+    try:
+        if mode == "rev":
+            vjp, y = autograd.make_vjp(lambda x: f(AG, x))(x0)
+            rows = []
+            for i in range(y0.size):
+                e = onp.zeros(y0.shape)
+                e.reshape(-1)[i] = 1.0
+                rows.append(onp.asarray(vjp(e if y0.shape else 1.0), dtype=float))
+            apply_J = lambda v: onp.array([float(onp.sum(r * v)) for r in rows])
+            finite = all(onp.all(onp.isfinite(r)) for r in rows)
+            shapes_ok = all(r.shape == x0.shape for r in rows)
+        else:
+            jvp = autograd.make_jvp(lambda x: f(AG, x))(x0)
+            apply_J = lambda v: onp.asarray(jvp(v)[1], dtype=float).reshape(-1)
+            probe = apply_J(onp.ones(x0.shape))
+            finite = bool(onp.all(onp.isfinite(probe)))
+            shapes_ok = probe.shape == (y0.size,)
+    except Exception as e:
+        if not from_autograd(e):
+            raise
+        return raised(e, mode, sample=sample)
+    if not shapes_ok:
+        return fail("wrong_shape", "derivative of the wrong shape at a kink", bucket("wrong_shape"), sample=sample)
+    if not finite:
+        return fail("nonfinite", "non-finite derivative at an explicitly handled non-smooth point", bucket("nonfinite"), sample=sample)
+    zero_mask = (x0 == 0.0)
+    for k in range(5):
+        v = values.direction(vseed, x0.shape, 600 + k)
+        if onesided:
+            v = onp.where(zero_mask, onp.abs(v), v)  # only the right side exists at x = 0 for a non-integer exponent
+        try:
+            dp, ep = oracle.one_sided(f_np, x0, v, +1.0)
+            dm, em = (dp, ep) if onesided else oracle.one_sided(f_np, x0, v, -1.0)
+        except oracle.Inconclusive as e:
+            return Outcome("inconclusive", detail=str(e), sample=sample)
+        try:
+            an = apply_J(v)
+        except Exception as e:
+            if not from_autograd(e):
+                raise
+            return raised(e, mode, sample=sample)
+        dp, dm = onp.asarray(dp, dtype=float).reshape(-1), onp.asarray(dm, dtype=float).reshape(-1)
+        lo, hi = onp.minimum(dp, dm), onp.maximum(dp, dm)
+        tol = 1e-6 * max(1.0, float(onp.max(onp.abs(hi), initial=0.0)), float(onp.max(onp.abs(lo), initial=0.0))) + 100 * (ep + em)
+        if not onp.all(onp.isfinite(an)):
+            return fail("nonfinite", "non-finite directional derivative at a kink", bucket("nonfinite"), sample=sample)
+        bad = (an < lo - tol) | (an > hi + tol)
+        if bad.any():
+            i = int(onp.argmax(bad))
+            return fail("not_generalised_gradient", f"direction {k}: (J v)[{i}] = {an[i]!r} outside the one-sided derivatives [{lo[i]!r}, {hi[i]!r}]",
+                        bucket("outside_interval"), sample=sample)
+    c.features.update(kink=desc[0], fn=name)
+    return ok(nontrivial=True, key=json.dumps(desc), labels=["kink=" + desc[0], "fn=" + name], sample=sample)
 
 
 def tests(mode):
-    return []
+    return [Test(f"{mode}:kinks", partial(body, mode), quick=1500, thorough=20000, shard_size=200)]
